@@ -49,7 +49,6 @@ package gremfam
 import (
 	"bytes"
 	"context"
-	"encoding/json"
 	"fmt"
 	"os"
 	"path/filepath"
@@ -90,9 +89,9 @@ func genC12(driver string, col *ev.Collector) func(*rapid.T) c12Case {
 		cfg := universe.DefaultConfig(driverSystem(driver))
 		cfg.UnknownReqs = driver != drvMavenOverride
 		cfg.DottedNames = os.Getenv("VERIF_GREM_DOTTED") != "" // off by default: package.json writer finding of C13
-		cfg.AliasDuplicates = 30                                // npm: share of manifests with an aliased duplicate requirement
-		cfg.LinkedAdvisories = 35                               // advisories naming other advisories of the scenario in `aliases`
-		cfg.DevShared = 35                                      // dev/test scoped direct requirement on a package production requirements reach too
+		cfg.AliasDuplicates = 30                               // npm: share of manifests with an aliased duplicate requirement
+		cfg.LinkedAdvisories = 35                              // advisories naming other advisories of the scenario in `aliases`
+		cfg.DevShared = 40                                     // dev/test scoped direct requirement on a package production requirements reach too
 		explicit := pct(t, "explicit?") < 35
 		if explicit {
 			// an explicit list is a proper subset of the advisories: have enough of them
@@ -315,23 +314,6 @@ func propC12(c c12Case) (ev.Outcome, error) {
 	if g, err := w.Resolve(context.Background(), path0, options.ResolutionOptions{MavenManagement: c.Opts.MavenManagement}); err == nil {
 		g0 = g
 		c12GraphClasses(c, g0, idSet(res1.Vulnerabilities), cls)
-	}
-	if os.Getenv("C12_DEBUG2") != "" && cls["vuln_on_dev_requirement_shared_with_prod"] && !c.Opts.DevDeps {
-		ro := c.Opts.build(c.Levels)
-		ps, _, _ := allPatches(w, path0, ro)
-		fmt.Printf("DEBUG2 %s opts=%+v levels=%+v noIntroduce=%v\n%s\nfound=%v\n", c.Driver, c.Opts, c.Levels, c.NoIntroduce, c.Manifest.Render(), sortedKeys(idSet(res1.Vulnerabilities)))
-		for _, p := range ps {
-			fmt.Printf("   proposal %s\n", describePatch(p))
-		}
-		for _, p := range res1.Patches {
-			fmt.Printf("   APPLIED %s\n", describePatch(p))
-		}
-		for _, v := range c.Vulns {
-			b, _ := json.Marshal(v.Affected)
-			fmt.Printf("  %s %s\n", v.ID, b)
-		}
-		cb, _ := json.Marshal(c)
-		fmt.Printf("CASEJSON %s\n", cb)
 	}
 	switch len(res1.Patches) {
 	case 0:
